@@ -592,6 +592,9 @@ fn main()
             (2, 1, vec![W::CG(vec![0], 0, comp(2, vec![]), vec![1, 0])]),
             // a mis-sized sub-gate inside a zero-iteration loop is never visited; the panic is the CCX's
             (3, 0, vec![W::G(lp(0, comp(2, vec![(lib("CX"), vec![1])])), vec![0, 1]), W::G(lib("CCX"), vec![1, 0, 2])]),
+            // a condition on more than 64 classical bits: `1 << pos` on the u64 target word
+            (1, 65, vec![W::CG((0..65).collect(), 0, lib("X"), vec![0])]),
+            (1, 64, vec![W::CG((0..64).collect(), 1, lib("X"), vec![0])]),
             // identity gates under controls / conditions are drawn as the bare wire (accepted reading)
             (3, 1, vec![W::CG(vec![0], 1, lib("I"), vec![1]), W::G(GT::C(Box::new(GT::C(Box::new(lib("I"))))), vec![0, 1, 2]), W::G(lib("H"), vec![2])]),
         ];
